@@ -38,10 +38,14 @@ def gen_case(r, kind):
     c["per"], c["P"], c["ctr"] = 0, 0.0, 0.0
     c["same"] = 1 if r.random() < 0.25 else 0
     c["sub"] = 1 if r.random() < 0.2 else 0
+    # simulation_running() is a constant of the engine (true for MD engines, false for VMD/post-processing)
+    c["running"] = 0 if kind == "norun" else 1
     nsteps = r.randint(10, 28)
+    if kind == "drift":
+        return gen_drift(r, c)
     if kind in ("langevin", "mixed") or (kind in ("reflect", "periodic", "narrow") and r.random() < 0.4):
         c["damping"] = r.choice([1.0, 10.0, 50.5, 200.0, 0.125])
-    if kind in ("reflect", "mixed", "narrow"):
+    if kind in ("reflect", "mixed", "narrow", "norun"):
         c["lower"] = V.dyadic(r, -1, 1, bits=3)
         c["upper"] = c["lower"] + (r.choice([0.0625, 0.125, 0.03125]) if kind == "narrow" else r.choice([0.5, 1.0, 1.5, 0.25]))
         m = r.random()
@@ -64,7 +68,7 @@ def gen_case(r, kind):
     frozen_from = r.randint(1, 3) if kind == "frozen" else None
     gl = []
     for t in range(nsteps if kind != "frozen" else r.randint(30, 60)):
-        e = {"boundary": 0, "running": 1}
+        e = {"boundary": 0, "running": c["running"]}
         if t > 0 and r.random() < (0.12 if kind != "frozen" else 0.0):
             e["boundary"] = 1
             m = r.random()
@@ -91,13 +95,38 @@ def gen_case(r, kind):
         else:
             e["fb"] = V.dyadic(r, -4, 4, bits=4) if r.random() < 0.6 else 0.0
             e["fba"] = V.dyadic(r, -4, 4, bits=4) if r.random() < 0.4 else 0.0
-        if kind == "mixed" and r.random() < 0.06:
-            e["running"] = 0
         ev.append(e)
         gl.append(V.dyadic(r, -3, 3, bits=5))
     c["events"] = ev
     c["gauss"] = gl
     return c
+
+
+def gen_drift(r, c):
+    """frictionless, no boundary: the coordinate starts at X0, from step 1 on the atoms sit frozen at X1; run for at least two periods"""
+    c["tsf"] = r.choice([1, 2])
+    c["dt"] = r.choice([1.0, 2.0])
+    per = r.choice([8.0, 16.0, 32.0])                     # period in slow steps
+    c["tau"] = c["dt"] * c["tsf"] * per
+    c["same"], c["sub"] = 0, 0
+    X0 = V.dyadic(r, 0.25, 1.75, bits=6)
+    X1 = X0 + r.choice([-1, 1]) * r.choice([0.125, 0.25, 0.5])
+    n = int(2 * per) + r.randint(1, 6)
+    c["events"] = [{"boundary": 0, "running": 1, "x": X0, "fb": 0.0, "fba": 0.0}] + \
+                  [{"boundary": 0, "running": 1, "x": X1, "fb": 0.0, "fba": 0.0} for _ in range(n * c["tsf"])]
+    c["gauss"] = [0.0]
+    c["X1"] = X1
+    return c
+
+
+def drift_twin(c):
+    """same physical orbit with half the time step (twice the number of steps)"""
+    t = dict(c)
+    t["dt"] = c["dt"] / 2
+    n = len(c["events"]) - 1
+    t["events"] = [dict(c["events"][0])] + [dict(c["events"][1]) for _ in range(2 * n)]
+    t["kind"] = "drift-twin"
+    return t
 
 
 def awake_steps(c):
@@ -128,37 +157,66 @@ def scenario(c, tag):
     if c["per"]:
         L += ["    period %r" % c["P"], "    wrapAround %r" % c["ctr"]]
     L += ["  }", "}", "EOF"]
+    cfg_start = L.index("xnew")
     tsf = float(c["tsf"])
-    run = 1
-    for e in c["events"]:
-        if e["running"] != run:
-            run = e["running"]
-            L.append("running %d" % run)
-        L.append("cvf v %s %s" % (hx(tsf * e["fb"]), hx(tsf * e["fba"])))
-        L.append("pos 1 0 0 %s" % hx(e["x"]))
-        if e["boundary"]:
-            L.append("runboundary")
-        L.append("xstep")
+    if not c.get("running", 1):
+        L.append("running 0")
+
+    def ev_lines(e, first=False):
+        o = ["cvf v %s %s" % (hx(tsf * e["fb"]), hx(tsf * e["fba"])), "pos 1 0 0 %s" % hx(e["x"])]
+        if e["boundary"] and not first:
+            o.append("runboundary")
+        o.append("xstep")
+        return o
+    K = c.get("resume_at")
+    for j, e in enumerate(c["events"]):
+        if K is not None and j == K:
+            break
+        L += ev_lines(e)
+    if K is not None:
+        # events 0..K-1 have been executed; event K-1 is executed again by a new object that loaded the state saved after it
+        st = "%s.state" % tag
+        L += ["save text %s" % st, "echo RESUME"]
+        L += L[cfg_start:L.index("EOF", L.index("config EOF") + 1) + 1]
+        L += ["load %s" % st, "gauss " + " ".join(hx(g) for g in c["resume_gauss"])]
+        if not c.get("running", 1):
+            L.append("running 0")
+        for j in range(K - 1, len(c["events"])):
+            L += ev_lines(c["events"][j], first=(j == K - 1))
     return L
 
 
-def model_line(c):
-    tsf = float(c["tsf"])
-    ins = []
+def gauss_used(c):
+    """index into c['gauss'] of the number consumed at each engine step (None if none is consumed)"""
+    out = []
     g = 0
     for (j, it, aw) in awake_steps(c):
-        if not aw:
+        e = c["events"][j]
+        if aw and c["damping"] != 0.0 and e["running"]:
+            out.append(g % len(c["gauss"]))
+            g += 1
+        else:
+            out.append(None)
+    return out
+
+
+def model_line(c, restart=None):
+    """restart = (first engine step of the resumed run, step origin, x_ext, v_ext)"""
+    tsf = float(c["tsf"])
+    ins = []
+    gu = gauss_used(c)
+    for (j, it, aw) in awake_steps(c):
+        if not aw or (restart is not None and j < restart[0]):
             continue
         e = c["events"][j]
-        rnd = 0.0
-        if c["damping"] != 0.0 and e["running"]:
-            rnd = c["gauss"][g % len(c["gauss"])]
-            g += 1
-        ins.append("%d %s %s %s %s %d" % (it, hx(e["x"]), hx(tsf * e["fb"]), hx(tsf * e["fba"]), hx(rnd), e["running"]))
-    return "%s %s %s %s %s %s %d %s %s %d %d %s %d %s %s %d %d 0 0x0p+0 0x0p+0 %d %s" % (
+        rnd = c["gauss"][gu[j]] if gu[j] is not None else 0.0
+        st = it - (restart[1] if restart is not None else 0)
+        ins.append("%d %s %s %s %s %d" % (st, hx(e["x"]), hx(tsf * e["fb"]), hx(tsf * e["fba"]), hx(rnd), e["running"]))
+    rs = "0 0x0p+0 0x0p+0" if restart is None else "1 %s %s" % (hx(restart[2]), hx(restart[3]))
+    return "%s %s %s %s %s %s %d %s %s %d %d %s %d %s %s %d %d %s %d %s" % (
         hx(KB), hx(c["temp"]), hx(c["tol"]), hx(c["tau"]), hx(c["damping"]), hx(c["dt"]), c["tsf"],
         hx(c["lower"]), hx(c["upper"]), c["rlo"], c["rup"], hx(c["width"]), c["per"], hx(c["P"]), hx(c["ctr"]),
-        c["same"], c["sub"], len(ins), " ".join(ins))
+        c["same"], c["sub"], rs, len(ins), " ".join(ins))
 
 
 def parse_impl(out):
@@ -174,6 +232,11 @@ def parse_impl(out):
             res[cur] = [False, []]
         elif cur is None:
             continue
+        elif w[0] == "echo" and len(w) >= 2 and w[1] == "RESUME":
+            res[cur + ":resumed"] = [False, []]
+            cur = cur + ":resumed"
+        elif w[0] == "LOAD" and "err=ok" not in l:
+            res[cur][0] = False
         elif w[0] == "CONFIG":
             res[cur][0] = ("err=ok" in l)
         elif w[0] == "X":
@@ -215,13 +278,23 @@ def pdiff(c, d):
     return d
 
 
-def oracles(run, c, recs, scn):
-    """property checks on the implementation's own outputs; every failure is a concrete failing input"""
+def clamp(c, x):
+    if c["rlo"] and x < c["lower"]:
+        x = c["lower"]
+    if c["rup"] and x > c["upper"]:
+        x = c["upper"]
+    return x
+
+
+def oracles(run, c, recs, scn, first_event=0, resumed=False):
+    """property checks on the implementation's own outputs; every failure is a concrete failing input.
+    recs[n] belongs to engine step first_event + n (first_event > 0: a resumed run, whose first step repeats that event)."""
     rep = {"kind": "scenario", "scenario": scn, "model_case": model_line(c)}
     k, m = doc_params(c)
     tsf = float(c["tsf"])
     bigdt = c["dt"] * tsf
-    aw = awake_steps(c)
+    aw = awake_steps(c)[first_event:]
+    gu = gauss_used(c)
     first = recs[0]
     if not (close(first["k"], k, 1e-12) and close(first["m"], m, 1e-12)):
         run.violation("params:k-m", "force constant/mass %r/%r differ from the documented kB*T/sigma^2 = %r and kB*T*(tau/(2 pi sigma))^2 = %r"
@@ -234,18 +307,13 @@ def oracles(run, c, recs, scn):
             run.violation("params:langevin", "friction/noise amplitude %r/%r differ from gamma = %r /fs and sqrt((1-exp(-2 gamma Dt)) m kB T) = %r"
                           % (first["gamma"], first["sigma"], g, sig), rep)
             return
-    prev = None          # previous awake record and its event
-    seen_err = False
+    prev = None          # (record, event, absolute step) of the previous awake step
     inv0 = None
-    gi = 0
-    taint = None         # absolute step at which a jump re-initialisation put the coordinate outside the boundaries
     for (j, it, awake), rec in zip(aw, recs):
         e = c["events"][j]
         if rec is None:
             run.violation("output:unparsable", "unparsable output at engine step %d" % j, rep)
             return
-        if seen_err:
-            break
         if not awake:
             if rec["awake"] or rec["fz"] != 0.0 or rec["energy"] != 0.0 or (prev and (rec["x_rep"] != prev[0]["x_rep"] or rec["x_ext"] != prev[0]["x_ext"])):
                 run.violation("mts:asleep-step-acts", "at engine step %d (absolute step %d, timeStepFactor %d) the sleeping variable changed or applied a force: %r"
@@ -255,75 +323,68 @@ def oracles(run, c, recs, scn):
         if not rec["awake"]:
             run.violation("mts:awake-step-skipped", "the variable was not updated at absolute step %d (timeStepFactor %d)" % (it, c["tsf"]), rep)
             return
-        if rec["err"]:
-            seen_err = True
         x, v = rec["x_rep"], rec["v_rep"]
-        rnd = None
-        if c["damping"] != 0.0 and e["running"]:
-            rnd = c["gauss"][gi % len(c["gauss"])]
-            gi += 1
-        # -- a step first executed while no simulation was running, then repeated at a run boundary (minimisation followed by a run)
-        if prev is not None and e["boundary"] and it == prev[2] and e["running"] and not prev[1]["running"] and not jumped:
-            if not (rec["x_rep"] == prev[0]["x_rep"]):
-                taint = it
-                jumped = True
-                run.violation("repeat:unset-backup",
-                              "absolute step %d was first executed with no simulation running (reported coordinate %r), then repeated at a run boundary: "
-                              "the coordinate was 'reverted' to a backup that was never stored and restarts from %r"
-                              % (it, prev[0]["x_rep"], rec["x_rep"]), rep)
-        # -- inside reflecting boundaries (reported value and stored coordinate), unless the error was raised
-        jumped = bool(prev and e["boundary"] and e["running"] and pdiff(c, e["x"] - prev[1]["x"]) ** 2 / c["width"] ** 2 > 0.25)
-        if jumped:
-            taint = it
-        jumped = jumped or (taint == it and e["boundary"])   # a further repetition reverts to the unclamped value
+        rnd = c["gauss"][gu[j]] if gu[j] is not None else None
+        repeated = bool(prev is not None and e["boundary"] and it == prev[2]) and not (resumed and j == first_event)
+        jumped = bool(repeated and e["running"] and pdiff(c, e["x"] - prev[1]["x"]) ** 2 / c["width"] ** 2 > 0.25)
+        # -- inside reflecting boundaries (reported value always; stored coordinate unless the error was raised)
         for nm, val in (("reported", x), ("stored", rec["x_ext"])):
             if nm == "stored" and rec["err"]:
                 continue
             if (c["rlo"] and val < c["lower"]) or (c["rup"] and val > c["upper"]):
-                if taint == it and not (prev and e["boundary"] and e["running"] and prev[1]["running"] and pdiff(c, e["x"] - prev[1]["x"]) ** 2 / c["width"] ** 2 > 0.25) and nm == "reported" and any(s_ == "repeat:unset-backup" for (s_, _, _, _) in run.violations + [(k_, 0, 0, 0) for k_, _ in run.known_hit]) and rec["x_rep"] == 0.0:
-                    continue
                 sig = "reflect:jump-reinit-outside" if (jumped and nm == "reported") else "reflect:outside"
                 run.violation(sig, "%s extended coordinate %r lies outside the reflecting boundaries [%s, %s] at absolute step %d%s"
                               % (nm, val, c["lower"] if c["rlo"] else "-", c["upper"] if c["rup"] else "-", it,
                                  " (re-initialised to the variable's value after a jump at a repeated step, without the clamp applied at initialisation)" if jumped else ""), rep)
-                if sig == "reflect:outside":
-                    return
+                return
         if not e["running"]:
+            # -- post-processing: the coordinate is the clamped value, every bias force goes to the atoms
+            if not (x == clamp(c, e["x"]) and rec["x_ext"] == x and v == 0.0 and rec["v_ext"] == 0.0):
+                run.violation("norun:coordinate", "no simulation running: coordinate/velocity (%r,%r) are not the clamped value %r of the variable and 0 at absolute step %d"
+                              % (x, v, clamp(c, e["x"]), it), rep)
+                return
+            if not close(rec["fz"], tsf * (e["fb"] + e["fba"])):
+                run.violation("norun:routing", "no simulation running: atom force %r is not the sum of the bias forces %r at absolute step %d"
+                              % (rec["fz"], tsf * (e["fb"] + e["fba"]), it), rep)
+                return
             prev = (rec, e, it)
-            inv0 = None
             continue
+        # -- initialisation: first step of a fresh run starts from the clamped value with zero velocity
+        if prev is None and not resumed:
+            if not (x == clamp(c, e["x"]) and v == 0.0):
+                run.violation("init:start", "the first step starts from (%r,%r), not from the clamped value %r of the variable and zero velocity" % (x, v, clamp(c, e["x"])), rep)
+                return
         # -- energies and forces of this step refer to (x_t, v_t-1/2 + half kick)
         d = pdiff(c, x - e["x"])
         F = e["fb"] - k * d
         von = v + 0.5 * bigdt * F / m
-        if not rec["err"] or True:
-            if not close(rec["epot"], 0.5 * k * d * d) or not close(rec["ekin"], 0.5 * m * von * von):
-                run.violation("time-origin:energies", "Ep/Ek = %r/%r at absolute step %d are not those of the reported coordinate %r and on-step velocity %r (expected %r/%r)"
-                              % (rec["epot"], rec["ekin"], it, x, von, 0.5 * k * d * d, 0.5 * m * von * von), rep)
+        if not close(rec["epot"], 0.5 * k * d * d) or not close(rec["ekin"], 0.5 * m * von * von):
+            run.violation("time-origin:energies", "Ep/Ek = %r/%r at absolute step %d are not those of the reported coordinate %r and on-step velocity %r (expected %r/%r)"
+                          % (rec["epot"], rec["ekin"], it, x, von, 0.5 * k * d * d, 0.5 * m * von * von), rep)
+            return
+        if not close(rec["energy"], rec["epot"] + rec["ekin"]):
+            run.violation("time-origin:engine-energy", "energy passed to the engine %r is not Ep+Ek = %r at absolute step %d" % (rec["energy"], rec["epot"] + rec["ekin"], it), rep)
+            return
+        # -- routing: the atoms feel the spring (times the factor) plus bypassing biases only
+        fat = tsf * k * d + tsf * e["fba"]
+        if not close(rec["fz"], fat):
+            run.violation("routing:atoms", "atom force %r at absolute step %d is not spring*factor + bypassing bias = %r (x_ext %r, x %r, ordinary bias %r)"
+                          % (rec["fz"], it, fat, x, e["x"], e["fb"]), rep)
+            return
+        if not close(rec["fr"], e["fb"]):
+            run.violation("routing:extended", "bias force on the extended coordinate %r is not the ordinary biases' force %r at absolute step %d" % (rec["fr"], e["fb"], it), rep)
+            return
+        # -- reported total force
+        if not c["same"]:
+            want = (-k * d) if c["sub"] else F
+            if not close(rec["ft"], want):
+                run.violation("time-origin:total-force", "total force %r reported after absolute step %d is not the force %r that acted on the coordinate at that step"
+                              % (rec["ft"], it, want), rep)
                 return
-            if not close(rec["energy"], rec["epot"] + rec["ekin"]):
-                run.violation("time-origin:engine-energy", "energy passed to the engine %r is not Ep+Ek = %r at absolute step %d" % (rec["energy"], rec["epot"] + rec["ekin"], it), rep)
-                return
-            # -- routing: the atoms feel the spring (times the factor) plus bypassing biases only
-            fat = tsf * k * d + tsf * e["fba"]
-            if not close(rec["fz"], fat):
-                run.violation("routing:atoms", "atom force %r at absolute step %d is not spring*factor + bypassing bias = %r (x_ext %r, x %r, ordinary bias %r)"
-                              % (rec["fz"], it, fat, x, e["x"], e["fb"]), rep)
-                return
-            if not close(rec["fr"], e["fb"]):
-                run.violation("routing:extended", "bias force on the extended coordinate %r is not the ordinary biases' force %r at absolute step %d" % (rec["fr"], e["fb"], it), rep)
-                return
-            # -- reported total force
-            if not c["same"]:
-                want = (-k * d) if c["sub"] else F
-                if not close(rec["ft"], want):
-                    run.violation("time-origin:total-force", "total force %r reported after absolute step %d is not the force %r that acted on the coordinate at that step"
-                                  % (rec["ft"], it, want), rep)
-                    return
-            elif rec["ft"] == 0.0 and abs(F) > 1e-3:
-                run.violation("time-origin:total-force-zero-same-step",
-                              "with an engine that provides same-step total forces the reported total force of the extended coordinate is 0 at absolute step %d while the force acting on it is %r"
-                              % (it, F), rep)
+        elif rec["ft"] == 0.0 and abs(F) > 1e-3:
+            run.violation("time-origin:total-force-zero-same-step",
+                          "with an engine that provides same-step total forces the reported total force of the extended coordinate is 0 at absolute step %d while the force acting on it is %r"
+                          % (it, F), rep)
         # -- the step taken: leapfrog / BAOA, reflection, wrap
         if not rec["err"]:
             vh = v + bigdt * F / m
@@ -350,37 +411,91 @@ def oracles(run, c, recs, scn):
                               "from (x,v)=(%r,%r) with force %r at absolute step %d the coordinate went to (%r,%r); the documented step gives (%r,%r)"
                               % (x, v, F, it, rec["x_ext"], rec["v_ext"], xn, vh), rep)
                 return
+        else:
+            # the error is legitimate only for an overshoot by more than the interval with both boundaries reflecting
+            run.dist("steps-raising-the-reflection-error")
+            if not (c["rlo"] and c["rup"]):
+                run.violation("reflect:error-one-sided", "the 'still outside boundaries' error was raised at absolute step %d although only one boundary is reflecting" % it, rep)
+                return
         # -- what the next awake step reports is what this step stored; a repeated step reports what the first execution reported
-        if prev is not None and prev[1]["running"]:
-            if e["boundary"] and it == prev[2]:
+        if prev is not None:
+            if repeated:
                 if not jumped and not (rec["x_rep"] == prev[0]["x_rep"] and rec["v_rep"] == prev[0]["v_rep"]):
                     run.violation("repeat:advanced", "absolute step %d was executed twice (run boundary): the second execution started from (%r,%r) instead of (%r,%r)"
                                   % (it, rec["x_rep"], rec["v_rep"], prev[0]["x_rep"], prev[0]["v_rep"]), rep)
                     return
-            elif it != 0 and not prev[0]["err"]:
+                if jumped and not (rec["x_rep"] == clamp(c, e["x"])):
+                    run.violation("repeat:jump-start", "after a jump at the repeated absolute step %d the coordinate restarts from %r, not from the (clamped) value %r of the variable"
+                                  % (it, rec["x_rep"], clamp(c, e["x"])), rep)
+                    return
+            elif not prev[0]["err"] and not (resumed and j == first_event):
                 if not (rec["x_rep"] == prev[0]["x_ext"] and rec["v_rep"] == prev[0]["v_ext"]):
                     run.violation("time-origin:value", "value/velocity reported at absolute step %d (%r,%r) are not the ones integrated at the previous update (%r,%r)"
                                   % (it, rec["x_rep"], rec["v_rep"], prev[0]["x_ext"], prev[0]["v_ext"]), rep)
                     return
         # -- frozen atoms, no ordinary bias: exact discrete invariant, no drift
-        if c["kind"] == "frozen" and c["damping"] == 0.0:
-            frozen = prev is not None and prev[1]["x"] == e["x"] and e["fb"] == 0.0
-            inv = 0.5 * m * von * von + 0.5 * k * (1 - k * bigdt * bigdt / (4 * m)) * d * d
+        if c["kind"] in ("frozen", "drift", "drift-twin") and c["damping"] == 0.0 and not c["rlo"] and not c["rup"] and not c["per"]:
+            frozen = prev is not None and prev[1]["x"] == e["x"] and e["fb"] == 0.0 and prev[1]["fb"] == 0.0
+            h = k * bigdt * bigdt / (4 * m)
+            inv = 0.5 * m * von * von + 0.5 * k * (1 - h) * d * d
+            E = rec["epot"] + rec["ekin"]
             if frozen and inv0 is not None:
                 if not close(inv, inv0[0], 1e-9):
                     run.violation("energy:drift", "frozen atoms, no bias: the discrete invariant moved from %r (absolute step %d) to %r (step %d)"
                                   % (inv0[0], inv0[1], inv, it), rep)
                     return
-                E = rec["epot"] + rec["ekin"]
                 if not close(E - inv, bigdt * bigdt * k * k / (8 * m) * d * d, 1e-9):
                     run.violation("energy:second-order", "Ek+Ep - invariant = %r is not dt^2 k^2/(8m) d^2 = %r at absolute step %d"
                                   % (E - inv, bigdt * bigdt * k * k / (8 * m) * d * d, it), rep)
                     return
-            elif frozen or inv0 is None:
+                I0 = inv0[0]
+                if h < 1 and not (I0 * (1 - 1e-9) - 1e-12 <= E <= I0 / (1 - h) * (1 + 1e-9) + 1e-12):
+                    run.violation("energy:band", "frozen atoms, no bias, no friction: Ek+Ep = %r at absolute step %d left the band [I0, I0/(1-h)] = [%r, %r], h = (pi Dt/tau)^2 = %r"
+                                  % (E, it, I0, I0 / (1 - h), h), rep)
+                    return
+            else:
                 inv0 = (inv, it)
-            if not frozen:
-                inv0 = (inv, it)
+        if rec["err"]:
+            break
         prev = (rec, e, it)
+
+
+def energy_amplitude(c, recs):
+    """max - min of Ek+Ep over the frozen part of a drift scenario (awake steps after the atoms have been frozen)"""
+    E = [r_["epot"] + r_["ekin"] for (j, it, a), r_ in zip(awake_steps(c), recs) if a and j >= 2 * c["tsf"]]
+    return (max(E) - min(E)) if E else 0.0
+
+
+def resume_oracle(run, c, K, recs, rrecs, scn):
+    """resumed run (state saved after engine step K-1, loaded by a new object that executes that step again) vs the uninterrupted run"""
+    rep = {"kind": "scenario", "scenario": scn, "resume_at": K}
+    aw = awake_steps(c)
+    flds = ["x_rep", "v_rep", "x_ext", "v_ext", "epot", "ekin", "fr", "f", "fz", "energy"] + ([] if c["same"] else ["ft"])
+    saved_awake = aw[K - 1][2]
+    for n, rr in enumerate(rrecs):
+        j = K - 1 + n
+        ur = recs[j]
+        if rr is None or ur is None:
+            return
+        if bool(rr["awake"]) != aw[j][2]:
+            run.violation("resume:awake-schedule" if saved_awake else "resume:saved-on-sleeping-step",
+                          "state saved after engine step %d (absolute step %d) and resumed: at absolute step %d the timeStepFactor-%d variable is %s"
+                          % (K - 1, aw[K - 1][1], aw[j][1], c["tsf"], "awake although the step is not a multiple of the factor" if rr["awake"] else "asleep"), rep)
+            return
+        if not aw[j][2]:
+            continue
+        if ur["err"] or rr["err"]:
+            if ur["err"] != rr["err"]:
+                run.violation("resume:error-differs" if saved_awake else "resume:saved-on-sleeping-step",
+                              "state saved after engine step %d (absolute step %d%s) and resumed: engine step %d raises an error in only one of the resumed/uninterrupted runs"
+                              % (K - 1, aw[K - 1][1], "" if saved_awake else ", on which the timeStepFactor-%d variable sleeps" % c["tsf"], j), rep)
+            return
+        for f_ in flds:
+            if not close(rr[f_], ur[f_], 1e-8):
+                sig = "resume:differs" if saved_awake else "resume:saved-on-sleeping-step"
+                run.violation(sig, "state saved after engine step %d (absolute step %d%s) and resumed: at absolute step %d %s = %r, the uninterrupted run has %r"
+                              % (K - 1, aw[K - 1][1], "" if saved_awake else ", on which the timeStepFactor-%d variable sleeps" % c["tsf"], aw[j][1], f_, rr[f_], ur[f_]), rep)
+                return
 
 
 # ------------------------------------------------------------------------------------ driver
@@ -412,11 +527,14 @@ def run_impl(sim, scns, d):
     return out
 
 
-def compare(run, c, tag, scn, impl, mline, mout):
-    """implementation vs extracted model on one scenario"""
+def compare(run, c, tag, scn, impl, mline, mout, first_event=None):
+    """implementation vs extracted model on one scenario (first_event not None: the resumed part of a run, starting by repeating that event)"""
+    resumed = first_event is not None
+    first_event = first_event or 0
     ok, recs = impl.get(tag, (False, []))
-    if not ok or len(recs) != len(c["events"]):
-        run.mismatch("scenario:run", {"scenario": scn}, "config_ok=%s records=%d" % (ok, len(recs)), "%d engine steps" % len(c["events"]))
+    nexp = len(c["events"]) - first_event if resumed else (c.get("resume_at") or len(c["events"]))
+    if not ok or len(recs) != nexp:
+        run.mismatch("scenario:run", {"scenario": scn}, "config_ok=%s records=%d" % (ok, len(recs)), "%d engine steps" % nexp)
         return None
     try:
         prm, msteps = parse_model(mout)
@@ -429,51 +547,78 @@ def compare(run, c, tag, scn, impl, mline, mout):
             if not close(a, b, 1e-12):
                 run.mismatch("params:" + nm, {"scenario": scn, "model_case": mline}, a, b)
                 return recs
-    aw = [j for (j, it, a) in awake_steps(c) if a]
+    aw = [j - first_event for (j, it, a) in awake_steps(c) if a and j >= first_event]
     exact = True
     for j, ms in zip(aw, msteps):
+        if j >= len(recs):
+            break
         rec = recs[j]
         if rec is None:
             break
         for fld in FIELDS:
+            if resumed and c["same"] and fld == "ft":
+                continue
             a, b = rec[fld], ms[fld]
             if fld == "err":
                 same = (a == b)
             else:
-                same = close(a, b) or (a == b)
+                same = close(a, b, 1e-8 if resumed else TOL) or (a == b)
                 exact = exact and (a == b)
             if not same:
-                run.mismatch("step:" + fld, {"scenario": scn, "model_case": mline, "engine_step": j}, a, b)
+                run.mismatch("step:" + fld, {"scenario": scn, "model_case": mline, "engine_step": j + first_event}, a, b)
                 return recs
         if rec["fz"] != rec["f"]:
-            run.mismatch("step:atom-force", {"scenario": scn, "engine_step": j}, rec["fz"], rec["f"])
+            run.mismatch("step:atom-force", {"scenario": scn, "engine_step": j + first_event}, rec["fz"], rec["f"])
             return recs
         if rec["err"]:
             break
-    run.dist("bit-identical-scenarios" if exact else "scenarios-equal-within-1e-9")
+    if not resumed:
+        run.dist("bit-identical-scenarios" if exact else "scenarios-equal-within-1e-9")
     return recs
 
 
-KINDS = ["free", "free", "frozen", "frozen", "reflect", "reflect", "reflect", "langevin", "periodic", "mixed", "mixed", "narrow"]
+KINDS = ["free", "free", "frozen", "frozen", "reflect", "reflect", "reflect", "langevin", "periodic", "mixed", "mixed", "narrow", "norun", "drift"]
 
 
 def witness_cases():
-    """the witnesses of the _refuted theorems of Properties_C17.v, as scenarios"""
+    """the witnesses of the _refuted theorems of Properties_C17.v and of fixed defects, as scenarios"""
     base = {"temp": 300.0, "tol": 0.5, "dt": 1.0, "tsf": 1, "tau": 16.0, "damping": 0.0, "width": 0.25, "lower": 0.0, "upper": 1.0,
-            "rlo": 1, "rup": 1, "per": 0, "P": 0.0, "ctr": 0.0, "same": 0, "sub": 0, "gauss": [0.0]}
+            "rlo": 1, "rup": 1, "per": 0, "P": 0.0, "ctr": 0.0, "same": 0, "sub": 0, "gauss": [0.0], "running": 1}
+    # fixed by fix-C17: jump at a repeated step re-initialises the coordinate outside the reflecting boundaries
     w1 = dict(base, kind="witness-jump")
     w1["events"] = [{"boundary": 0, "running": 1, "x": 0.5, "fb": 0.0, "fba": 0.0},
                     {"boundary": 0, "running": 1, "x": 0.5, "fb": 0.0, "fba": 0.0},
-                    {"boundary": 1, "running": 1, "x": 2.0, "fb": 0.0, "fba": 0.0}]
-    w3 = dict(base, kind="witness-unset-backup")
-    w3["events"] = [{"boundary": 0, "running": 0, "x": 0.5, "fb": 0.0, "fba": 0.0},
-                    {"boundary": 1, "running": 1, "x": 0.5, "fb": 0.0, "fba": 0.0},
-                    {"boundary": 0, "running": 1, "x": 0.5, "fb": 0.0, "fba": 0.0}]
+                    {"boundary": 1, "running": 1, "x": 2.0, "fb": 0.0, "fba": 0.0},
+                    {"boundary": 0, "running": 1, "x": 2.0, "fb": 0.0, "fba": 0.0}]
+    # C17_total_force_same_step_refuted
     w2 = dict(base, kind="witness-same-step", same=1, rlo=0, rup=0)
-    w2["events"] = [{"boundary": 0, "running": 1, "x": 0.5, "fb": 0.0, "fba": 0.0},
+    w2["events"] = [{"boundary": 0, "running": 1, "x": 0.5, "fb": 1.0, "fba": 0.0},
                     {"boundary": 0, "running": 1, "x": 1.0, "fb": 0.0, "fba": 0.0},
                     {"boundary": 0, "running": 1, "x": 1.0, "fb": 0.0, "fba": 0.0}]
+    # state saved on a step on which a timeStepFactor-2 variable sleeps
+    w3 = dict(base, kind="witness-resume-sleeping", tsf=2, rlo=0, rup=0, tau=32.0, resume_at=4)
+    w3["events"] = [{"boundary": 0, "running": 1, "x": 0.5 + 0.25 * (t > 0), "fb": 0.0, "fba": 0.0} for t in range(9)]
     return [w1, w2, w3]
+
+
+def add_resume(r, c):
+    """choose a point where the state is saved and a new object resumes (None: no suitable point)"""
+    ev = c["events"]
+    aw = awake_steps(c)
+    cand = [K for K in range(1, len(ev)) if not ev[K]["boundary"] and (aw[K - 1][2] or r.random() < 0.3)]
+    if not cand or c["kind"] in ("drift", "drift-twin"):
+        return
+    c["resume_at"] = r.choice(cand)
+
+
+def finish_resume(c):
+    K = c.get("resume_at")
+    if K is None:
+        return
+    gu = gauss_used(c)
+    nxt = [g for g in gu[K - 1:] if g is not None]
+    st = nxt[0] if nxt else 0
+    c["resume_gauss"] = c["gauss"][st:] + c["gauss"][:st]
 
 
 def check(run):
@@ -482,13 +627,14 @@ def check(run):
     run.cov["rule"] = ("scenarios through the engine simulator: one exact distanceZ variable with extendedLagrangian, imposed value history (dyadic), "
                        "imposed force histories on the extended coordinate and (bypassing) on the actual value, timeStepFactor 1-4, friction 0 / >0 with the "
                        "controlled Gaussian source, reflecting boundaries on either/both sides (starts on/outside a boundary, narrow intervals that raise the error), "
-                       "periodic variable, repeated steps at run boundaries (same value, exactly at / just beyond the jump threshold), simulation not running, "
-                       "same-step and lagged total forces, subtractAppliedForce. distinct = distinct scenario; non-trivial = at least 5 integrated steps and "
-                       "(for reflect kinds) at least one reflection or (for others) a non-zero force")
+                       "periodic variable, repeated steps at run boundaries (same value, exactly at / just beyond the jump threshold), simulation running or not (per scenario), "
+                       "same-step and lagged total forces, subtractAppliedForce, state saved at a random step and resumed by a new object (about half of the scenarios), "
+                       "frictionless frozen-atom orbits run with dt and dt/2. distinct = distinct scenario; non-trivial = at least 5 integrated steps and a non-zero atom force")
     run.assumptions += ["theorems are about the R instance of the model; the tie runs the float instance of the same extracted code (same operation order: results are "
-                        "expected bit-identical; accepted within relative 1e-9)",
+                        "expected bit-identical; accepted within relative 1e-9; 1e-8 after a 14-digit text state)",
                         "external (alchemical) extended variables, non-scalar variables, hidden Jacobian forces and the time-step-factor mismatch error path are outside the model/tie",
-                        "on steps on which a timeStepFactor>1 variable sleeps the model has no transition; the check verifies on the implementation that nothing changes and no force is applied"]
+                        "on steps on which a timeStepFactor>1 variable sleeps the model has no transition; the check verifies on the implementation that nothing changes and no force is applied",
+                        "simulation_running() is a constant of the engine; switching it during a session (no engine does) is outside the property and the tie"]
     st = V.standard_start(run, PROP, EXTRACT, DRIVER, PROGS)
     if st is None:
         return
@@ -502,27 +648,38 @@ def check(run):
         for f in sorted(os.listdir(cdir)):
             if f.startswith("C17_") and f.endswith(".json"):
                 cases.append(json.load(open(os.path.join(cdir, f))))
-    n = 360 if quick else 9000
+    n = 330 if quick else 9000
     for kk in range(n):
-        cases.append(gen_case(r, KINDS[kk % len(KINDS)] if kk < 4 * len(KINDS) else r.choice(KINDS)))
-    scns = [("c%d" % i, scenario(c, "c%d" % i)) for i, c in enumerate(cases)]
-    mlines = [model_line(c) for c in cases]
-    impl = run_impl(sim, scns, d)
-    rc, mout, e = V.run_lines(model, mlines)
+        c = gen_case(r, KINDS[kk % len(KINDS)] if kk < 4 * len(KINDS) else r.choice(KINDS))
+        if r.random() < 0.5:
+            add_resume(r, c)
+        cases.append(c)
+        if c["kind"] == "drift":
+            cases.append(drift_twin(c))
+    for c in cases:
+        c.setdefault("running", 1)
+        finish_resume(c)
+    # every case is run uninterrupted; cases with resume_at are run a second time with save / new object / load
+    jobs = []          # (tag, case, scenario lines, model line, first_event)
     for i, c in enumerate(cases):
-        tag, scn = scns[i]
-        recs = compare(run, c, tag, scn, impl, mlines[i], mout[i] if i < len(mout) else "")
+        cu = dict(c)
+        cu.pop("resume_at", None)
+        jobs.append(("c%d" % i, c, scenario(cu, "c%d" % i), model_line(cu), 0))
+    scns = [(tag, L) for (tag, c, L, ml, fe) in jobs] + \
+           [("r%d" % i, scenario(c, "r%d" % i)) for i, c in enumerate(cases) if c.get("resume_at") is not None]
+    impl = run_impl(sim, scns, d)
+    rc, mout, e = V.run_lines(model, [ml for (tag, c, L, ml, fe) in jobs])
+    allrecs = {}
+    amps = {}
+    for i, (tag, c, scn, ml, fe) in enumerate(jobs):
+        recs = compare(run, c if c.get("resume_at") is None else dict(c, resume_at=None), tag, scn, impl, ml, mout[i] if i < len(mout) else "")
         run.dist("kind:" + c["kind"])
         run.dist("tsf=%d" % c["tsf"])
         if recs is None or any(x is None for x in recs):
             run.count(tag, False)
             continue
+        allrecs[i] = recs
         nint = sum(1 for (j, it, a) in awake_steps(c) if a and c["events"][j]["running"])
-        nrefl = 0
-        aw = [j for (j, it, a) in awake_steps(c) if a]
-        for a_, b_ in zip(aw, aw[1:]):
-            if recs[a_]["v_ext"] != 0 and c["rlo"] + c["rup"] and not c["events"][b_]["boundary"]:
-                pass
         nerr = sum(1 for x in recs if x["err"])
         nb = sum(1 for e_ in c["events"] if e_["boundary"])
         run.dist("scenarios-with-error" if nerr else "scenarios-without-error")
@@ -530,9 +687,59 @@ def check(run):
         run.dist("integrated-steps", nint)
         run.count(tag, nint >= 5 and any(x["fz"] != 0.0 for x in recs))
         oracles(run, c, recs, scn)
-        if i in (2, 3, 6):
+        if c["kind"] in ("drift", "drift-twin"):
+            amps[i] = energy_amplitude(c, recs)
+        if i in (3, 4, 7):
             run.sample({"kind": c["kind"], "scenario_head": scn[:34], "first_records": [{k_: v_ for k_, v_ in x.items()} for x in recs[:3]]})
-    run.cov["correspondence"].update({"scenarios": len(cases), "engine_steps": sum(len(c["events"]) for c in cases)})
+    # -- second-order scaling of the energy fluctuation: halving the time step divides the amplitude by four
+    for i, c in enumerate(cases):
+        if c["kind"] == "drift" and i in amps and (i + 1) in amps and cases[i + 1]["kind"] == "drift-twin":
+            a1, a2 = amps[i], amps[i + 1]
+            run.dist("drift-pairs")
+            if a2 <= 0 or not (3.0 <= a1 / a2 <= 5.5):
+                run.violation("energy:scaling", "frictionless frozen-atom orbit: the amplitude of Ek+Ep is %r with dt=%r and %r with dt/2 (ratio %r, second order means about 4)"
+                              % (a1, c["dt"], a2, (a1 / a2) if a2 else float("inf")), {"kind": "scenario", "scenario": jobs[i][2], "twin": jobs[i + 1][2]})
+    # -- resumed runs: against the uninterrupted run (oracle) and against the model started from the saved values (tie)
+    rjobs = []
+    for i, c in enumerate(cases):
+        K = c.get("resume_at")
+        if K is None or i not in allrecs:
+            continue
+        tag = "r%d" % i
+        scn = dict(scns)[tag] if False else None
+        rjobs.append((i, tag))
+    scn_by_tag = dict(scns)
+    rlines = []
+    for (i, tag) in rjobs:
+        c = cases[i]
+        K = c["resume_at"]
+        ur = allrecs[i]
+        aw = awake_steps(c)
+        # values in the saved state = what was reported at the last awake step up to K-1
+        last = [j for j in range(K) if aw[j][2]][-1]
+        rlines.append(model_line(c, restart=(K - 1, aw[K - 1][1], ur[last]["x_rep"], ur[last]["v_rep"])))
+    rc, rmout, e = V.run_lines(model, rlines) if rlines else (0, [], "")
+    for n_, (i, tag) in enumerate(rjobs):
+        c = cases[i]
+        K = c["resume_at"]
+        scn = scn_by_tag[tag]
+        ok1, recs1 = impl.get(tag, (False, []))
+        ok2, recs2 = impl.get(tag + ":resumed", (False, []))
+        run.dist("resumed-scenarios")
+        if not ok1 or not ok2 or len(recs1) != K or any(x is None for x in recs1 + recs2):
+            run.mismatch("scenario:resume-run", {"scenario": scn}, "ok=%s/%s records=%d/%d" % (ok1, ok2, len(recs1), len(recs2)), "%d + %d engine steps" % (K, len(c["events"]) - K + 1))
+            continue
+        if any(x["err"] for x in recs1):
+            run.dist("resume-after-error-skipped")
+            continue
+        resume_oracle(run, c, K, allrecs[i], recs2, scn)
+        if awake_steps(c)[K - 1][2]:
+            impl_r = {tag: (ok2, recs2)}
+            compare(run, c, tag, scn, impl_r, rlines[n_], rmout[n_] if n_ < len(rmout) else "", first_event=K - 1)
+            oracles(run, c, recs2, scn, first_event=K - 1, resumed=True)
+        else:
+            run.dist("resumed-on-sleeping-step (known defect, outside the model: oracle only)")
+    run.cov["correspondence"].update({"scenarios": len(cases) + len(rjobs), "engine_steps": sum(len(c["events"]) for c in cases)})
 
 
 def replay(path):
